@@ -10,6 +10,7 @@
                         remove, dusd, dtok, fund, cdelta, insolv, wdable, full]
    f   = funding-rate tuple of the real next_funding_factor_per_second [has, dt, L, S, ok, rate, lp, next, stored]
    b   = real total_pending_borrowing_fees now / after a hypothetical tick [l_ok, l, s_ok, s, hl_ok, hl, hs_ok, hs]
+   pp  = partial state of a FAILED increase/decrease before it is discarded [has, ok, size, fps, cfps, idx, cidx]
    ncb = number of on_insufficient_funding_fee_payment callbacks fired by this operation        *)
 EXTENDS MarketHist
 
@@ -129,6 +130,12 @@ C12_PendingNonNeg(m, c, ps) ==
      /\ PendingFunding(m, c, ps[k]).fee >= 0
      /\ \A t \in 1..2 : PendingFunding(m, c, ps[k]).claim[t] >= 0
 C12_PendingNonNegReal(ps) == \A k \in 1..Len(ps) : ps[k].size > 0 => ps[k].pf_ok
+(* the model crate's actions mutate in place: also in the PARTIAL state left behind by an increase /
+   decrease that returned Err (pp, probed before the driver discards it) the position's snapshots do not
+   run ahead of the market indices for its own side and collateral, and the real pending_funding_fees
+   computes *)
+C12_PendingNonNegPartial(pp) ==
+  pp.has => /\ pp.ok /\ pp.fps <= pp.idx /\ \A t \in 1..2 : pp.cfps[t] <= pp.cidx[t]
 
 -----------------------------------------------------------------------------
 (* C13: borrowing accounting *)
